@@ -124,7 +124,17 @@ impl DynamicTypeItem {
 
         let number = Self::execute_code(config, code, number)?;
 
-        for (_, group) in config.types.iter() {
+        let target_group_name = match type_conversion.source.name == source_type.group_name {
+            true => &type_conversion.target.name,
+            false => &type_conversion.source.name
+        };
+
+        for (group_name, group) in config.types.iter() {
+            /* Only the family on the other side of the conversion is a valid target */
+            if group_name != target_group_name {
+                continue;
+            }
+
             for (_, target_dynamic_type) in group.iter() {
                 
                 if target_dynamic_type.names.contains(&target_type) {
